@@ -201,10 +201,6 @@ class Run:
                 ck.stat(stream, "not-a-single-interpolation-token")
                 continue
             ck.count(stream, L.key(s), nontrivial=True)
-            if len(im) > 1 and im[0] == "err":
-                if s.isascii():
-                    self.report("interp-corr", "error rendering panicked on an ASCII source %r" % s, {"src": s, "clause": "interp-correspondence", "implementation": im})
-                ck.stat(stream, "rejected-by-parser-but-error-rendering-panicked (C13 byte/char span finding, non-ASCII source)")
             if m[0] == "err":
                 ck.stat(stream, "rejected")
                 if im[0] != "err":
